@@ -138,6 +138,10 @@ def life_scenarios(rng):
         s = ["scenario", "new 2 %d tcp" % fam, "connectdead 2", "new 7 %d tcp" % fam, "set 7 blocking 0", "connectdead 7", "new 1 %d tcp" % fam, "set 1 backlog 9", "getters 1",
              "bind 1", "listen 1", "set 1 backlog 3", "getters 1", "set 1 keepalive 1", "set 1 keepalive 0", "set 1 timeout -4", "getters 1"]
         out.append(s)
+        # a listen call that fails leaves the socket as it was: later option calls still take effect and the getters show them
+        s = ["scenario"] + udp_pair(fam) + ["getters 4", "listen 4", "set 4 backlog 7", "getters 4", "set 4 backlog 2", "getters 4", "listen 4", "set 4 backlog 11", "getters 4",
+                                            "set 4 timeout 25", "recvfrom 4 10", "close 4", "listen 4", "set 4 backlog 3", "getters 4"]
+        out.append(s)
         # a connection attempt that cannot complete (accept queue full, nobody accepts): timed-out error after T, socket stays unconnected
         s = ["scenario", "new 1 %d tcp" % fam, "set 1 backlog 0", "bind 1", "listen 1", "fill 1", "new 2 %d tcp" % fam, "set 2 timeout 300", "connectfull 2 1", "getters 2",
              "new 7 %d tcp" % fam, "set 7 blocking 0", "connectfull 7 1", "getters 7", "close 2", "connectfull 2 1"]
